@@ -1,11 +1,11 @@
 #!/bin/bash
-# tools/intake_r3.sh <Cxx> : take in /tmp/seedgen/<Cxx>/out3/{X,Y} under the next two free letters
+# tools/intake_r3.sh <Cxx> : take in /tmp/seedgen/<Cxx>/out${R:-3}/{X,Y} under the next two free letters
 p="$1"
 letters=(A B C D E F G H I J K L)
 n=$(ls -d /verif/seeded/$p-* 2>/dev/null | wc -l)
 for v in X Y; do
   l=${letters[$n]}; n=$((n+1))
-  [ -f /tmp/seedgen/$p/out3/$v/meta.json ] || { echo "$p $v: no deliverable"; continue; }
+  [ -f /tmp/seedgen/$p/out${R:-3}/$v/meta.json ] || { echo "$p $v: no deliverable"; continue; }
   mkdir -p /verif/seeded/$p-$l   # reserve the name
-  echo "/tmp/seedgen/$p/out3/$v $p-$l"
+  echo "/tmp/seedgen/$p/out${R:-3}/$v $p-$l"
 done
